@@ -134,4 +134,33 @@ example : ∃ prev : St, prev.ri = 3 ∧ prev.rn = 55357 ∧ prev.quoteDelim = 3
 
 example : Current {} := ⟨rfl, rfl, rfl⟩
 
+/-! ## sen.Tokenizer -/
+
+/-- a reused sen.Tokenizer accepts what a fresh one accepts (the weakest reading of C07 for it) -/
+def tokenizer_reused_like_fresh_full (cfg : Cfg) : Prop :=
+  ∀ (prev : St) (chunks : List Bytes),
+    (match call refTables cfg prev chunks with | .ok _ => true | .error _ => false) =
+    (match run refTables cfg chunks with | .ok _ => true | .error _ => false)
+
+/-- **false for the code as it is** (finding C07sen-tokenizer-exkey-not-reset): `Tokenizer.Parse`/`Load` do
+not reset `exkey` (`not_reset`), so on an instance that a failed call (`{`) left expecting a member name
+`[a b]` is "expected a key" -/
+theorem tokenizer_reused_like_fresh_full_false : ¬ tokenizer_reused_like_fresh_full { tokenizer := true } := by
+  intro h
+  have := h { exkey := true } [[91, 97, 32, 98, 93]]
+  revert this
+  decide +kernel
+
+/-- the reused outcome of that witness is the `expectedKey` error, and the token `a` is reported as a KEY -/
+example : (match call refTables { tokenizer := true } { exkey := true } [[91, 97, 32, 98, 93]] with
+    | .error e => e.kind == .expectedKey | .ok _ => false) = true := by decide +kernel
+
+example : (match call refTables { tokenizer := true } { exkey := true } [[97]] with
+    | .ok o => (match o.evs with | [.key k] => k == [97] | _ => false) | .error _ => false) = true := by decide +kernel
+
+/-- with the proposed repair (`exkey` reset at entry: `keepExkey := false`) the witness behaves like on a
+fresh tokenizer -/
+example : (match call refTables { tokenizer := true, keepExkey := false } { exkey := true } [[91, 97, 32, 98, 93]] with
+    | .ok _ => true | .error _ => false) = true := by decide +kernel
+
 end OjgVerif.C07sen
